@@ -265,20 +265,32 @@ async def run_case(case: dict, corr=None) -> dict:
     if case["op"] == "listen":
         line = bytes.fromhex(case["line"])
         rd = case.get("read_delay", 0)
+        arrival, arrived = None, [rd == 0]
+
+        def arrives(r=reader) -> None:
+            arrived[0] = True
+            log("the line arrives")
+            r.feed_data(line)
         if rd == 0:
             reader.feed_data(line)
         elif rd is not None:
-            loop.call_later(rd, lambda: (log("the line arrives"), reader.feed_data(line)))
+            arrival = loop.call_later(rd, arrives)
         else:
             log("no line arrives")
         listener = g.listen()
         res["out"] = await ask(lambda: anext(listener), case.get("cancel_at"), f"asks for the next message ({lib.safe_repr(line)[2:-1]})")
+        if arrival is not None and not arrived[0]:
+            arrival.cancel()
+            log("the line is not sent after all")
+        # a request that ended without a message may have ended before it took the line off the stream (given up by its
+        # owner, or by the library, at the moment the line arrived): the line is then still ahead of the probe
+        leftover = arrived[0] and not res["out"].startswith("ok")
         if not res["out"].startswith("ok"):
             await listener.aclose()
             listener = None
     else:
         f, buffered = case["send"]
-        listener = None
+        listener, leftover = None, False
         res["out"] = await ask(lambda: g.send(Message(*f), message_buffer=buffered), case.get("cancel_at"), f"calls send{tuple(f)}")
     res["writes"] = [w.decode("utf-8", "replace") for w in writer.attempts]
     res["stretches"] = list(writer.ended)
@@ -298,7 +310,7 @@ async def run_case(case: dict, corr=None) -> dict:
                 res["session"] = await ask(lambda: g.__aenter__(), None, "enters the context again", judged=False)
         except BaseException as e:  # noqa: BLE001
             res["session"] = gw.render_exc(e)
-        reader, writer = tr.reader, tr.writer
+        reader, writer, leftover = tr.reader, tr.writer, False
         if res["session"] != "ok" or not isinstance(writer, SlowWriter) or writer.closed:
             res["probe"] = "skipped"
             return res
@@ -310,6 +322,12 @@ async def run_case(case: dict, corr=None) -> dict:
         listener = g.listen()
     flagged_before = flagged
     res["probe"] = await ask(lambda: anext(listener), None, "asks for the next message (the probe line)")
+    if res["probe"] != PROBE_OUT and leftover and res["probe"] != "hang" and not flagged:
+        res["leftover"] = res["probe"]
+        if not res["probe"].startswith("ok"):
+            await listener.aclose()
+            listener = g.listen()
+        res["probe"] = await ask(lambda: anext(listener), None, "asks for the next message (that was the late line; now the probe line)")
     if res["probe"] != PROBE_OUT and not flagged_before and not flagged:
         bad("after a slow stretch on the stream the next well-formed line was not processed normally", outcome=res["probe"])
     await listener.aclose()
